@@ -8,10 +8,12 @@ Case (JSON):
 The sample of size n is drawn from a MersenneTwister(seed) (wrapped only to count the uniforms
 consumed per draw), so a case is a pure function of its data.
 
-Decision rule of the statistical clauses: reject only at p < 1e-9
-  KS   : D > sqrt(ln(2e9) / (2 n)) + 5e-4      (DKW/Massart bound, exact for finite n; D is evaluated
-         at ~400 order statistics = lower bound of the true D, so the bound stays valid)
-  chi2 : upper tail probability Q(df/2, chi2/2) < 1e-9, cells pooled to expectation >= 25
+Decision rule of the statistical clauses: reject only at p < 1e-10 (stricter than the 1e-9 of the design,
+because a quick run performs ~5 000 and a thorough run ~20 000 tests)
+  KS   : D > sqrt(ln(2e10) / (2 n)) + 5e-4     (DKW/Massart bound, exact for finite n; D is evaluated
+         at ~400 order statistics = lower bound of the true D, so the bound stays valid);
+         = 0.0248 for n = 20 000, 0.0068 for n = 300 000
+  chi2 : upper tail probability Q(df/2, chi2/2) < 1e-10, cells pooled to expectation >= 25
 Discrepancy kinds are `<clause>:<Class>[:<qualifier>]`.
 """
 import collections
@@ -27,7 +29,7 @@ RULE = ("Enumerated parameter grid that reaches every sampler branch (gamma shap
         "of Beta/Pearson5/Pearson6, Erlang k below/at/above GAMMATHRESHOLD=10, normal truncation none/one-/two-sided/"
         "far tail, triangular mode at lo/hi/interior, Bernoulli/binomial p at 0, small, 1/2, near 1 and 1, Poisson small/"
         "large/int rate) plus Hypothesis-drawn parameters from the stated moderate ranges (shapes/scales 0.05..50, "
-        "k<=60, n<=300, rate<=100, p in [0.01,0.99]) and a drawn stream seed; sample size 20 000 (quick) / 300 000 "
+        "k<=60, n<=300, rate<=100, p in [0.01,0.99]) and a stream seed, all expanded deterministically from one Hypothesis-drawn 64-bit key; sample size 20 000 (quick) / 300 000 "
         "(thorough), capped so that one case consumes <= 2e6 / 2e7 uniforms.  Oracle continuous: pdf >= 0 and finite "
         "at every quadrature node, exactly 0 outside the support, adaptive Gauss-Kronrod integral of the DECLARED pdf "
         "over the effective support (reference tails <= 1e-9) = 1 +- 1e-6, KS distance of the sample against the "
@@ -36,7 +38,7 @@ RULE = ("Enumerated parameter grid that reaches every sampler branch (gamma shap
         "(1e-9 rel), sum = 1 +- 1e-9, no sampled value with pmf 0, pooled chi-square of the frequencies against "
         "probability().  cdf/inverse (Normal, LogNormal, NormalTrunc, erf_inv, beta): reference agreement, "
         "monotone, cdf differences = integral of pdf, inv(cdf(x)) = x and cdf(inv(y)) = y within 1e-6*|x-mu| "
-        "(documented 4.5e-8) for |2y-1| <= 1-1e-9.  Statistical clauses fail only at p < 1e-9.  Non-trivial = "
+        "(documented 4.5e-8) for |2y-1| <= 1-1e-9.  Statistical clauses fail only at p < 1e-10.  Non-trivial = "
         "a random (non-grid) parameter set, or a sample in which >= 2 distinct sampler paths were observed "
         "(distinct numbers of uniforms per draw, both gamma acceptance steps, both triangular halves, both "
         "Bernoulli outcomes, several erf_inv approximations); distinct = distinct case digests.")
@@ -50,7 +52,7 @@ ASSUMPTIONS = [
     "sample with the reference Poisson pmf only (kind sample-vs-pmf:DistPoisson:rate>700)",
     "the density is evaluated only inside the effective support (+ a few points outside the support), so "
     "overflow of a pdf formula at astronomically improbable arguments is not asserted",
-    "statistical resolution: D ~ 0.023 (n = 20 000) / 0.006 (n = 300 000); subtler shape errors pass",
+    "statistical resolution: D ~ 0.025 (n = 20 000) / 0.007 (n = 300 000); subtler shape errors pass",
     "math.erf / math.erfc / math.lgamma of the C library and mpmath are trusted",
     "the chi-square tail is the asymptotic one; with pooled expectations >= 25 the true false-alarm rate of a "
     "single test stays <~ 1e-8",
@@ -58,9 +60,9 @@ ASSUMPTIONS = [
 NONTRIVIAL_FLOOR = 0.5
 LEVEL_TEXT = "exploration"
 TECHNIQUE = ("property-based (Hypothesis) parameter generation + enumerated branch grid; goodness-of-fit "
-             "(Kolmogorov-Smirnov with DKW bound, pooled chi-square) at p < 1e-9; adaptive Gauss-Kronrod "
+             "(Kolmogorov-Smirnov with DKW bound, pooled chi-square) at p < 1e-10; adaptive Gauss-Kronrod "
              "quadrature of the declared density; mpmath closed forms as independent oracle")
-LEVEL_NOTE = "statistical agreement has resolution D ~ 0.006 at the thorough size"
+LEVEL_NOTE = "statistical agreement has resolution D ~ 0.007 at the thorough size"
 
 CONT = ["DistBeta", "DistErlang", "DistExponential", "DistGamma", "DistNormal", "DistLogNormal",
         "DistNormalTrunc", "DistPearson5", "DistPearson6", "DistTriangular", "DistUniform", "DistWeibull"]
@@ -76,8 +78,8 @@ INF = math.inf
 
 def budget(tier):
     if tier == "quick":
-        return {"examples": 1280, "shards": 16, "shrink_seconds": 10}
-    return {"examples": 9600, "shards": 16, "shrink_seconds": 120}
+        return {"examples": 1920, "shards": 16, "shrink_seconds": 10}
+    return {"examples": 6400, "shards": 16, "shrink_seconds": 120}
 
 
 # --------------------------------------------------------------------------------- encoding
